@@ -721,6 +721,126 @@ def long_password_probe(rep: Report, ctx):
                     break
 
 
+# --------------------------------------------------------------------------- key files written by init / add-key
+def key_file_probe(rep: Report, ctx):
+    """init / add-key with a key output file: the path may be new or already hold something else - nothing, a few bytes,
+    a much longer file, the very key that is being rotated (clone in place, shorter or longer KDF serialisation).  The file
+    must afterwards hold exactly the key that was handed out, and a fresh process must unlock from the FILE."""
+    d = ctx.scratch / 'keyfiles'
+    d.mkdir(parents=True, exist_ok=True)
+    prefills = {'did not exist': None, 'was empty': b'', 'held 10 bytes': b'x' * 10, 'held a longer file': b'{"old": "' + b'k' * 6000 + b'"}'}
+    kdfs = {'scrypt': CHEAP_KDF, 'blake2b': {'name': 'blake2b'}}
+    n = [0]
+
+    def judge(path, key, be, pw, case):
+        rep.case(case, nontrivial=True)
+        rep.count('key-file:' + case['target'])
+        want = Repository(be, concurrent=1, cache_directory=None).serialize(key)
+        got = path.read_bytes()
+        sig = {'kind': 'key_file', 'step': case['step']}
+        if got != want:
+            rep.violations.append({'what': f'{case["step"]} wrote its key to a file that {case["target"]}: the file holds {len(got)} bytes, the key has '
+                                           f'{len(want)} ({"the key followed by " + str(len(got) - len(want)) + " old bytes" if got.startswith(want) else "other contents"})',
+                                   'signature': sig, 'replay': case})
+            return
+        repo = Repository(be, concurrent=1, cache_directory=None)
+        try:
+            run_async(lambda: repo.unlock(password=pw, key=got))
+        except BaseException as e:  # noqa
+            if isinstance(e, (KeyboardInterrupt, SystemExit, MemoryError)):
+                raise
+            rep.violations.append({'what': f'the key file written by {case["step"]} ({case["target"]}) does not unlock the repository: {exc_name(e)}: {e}'[:200],
+                                   'signature': sig, 'replay': case})
+
+    for target, pre in prefills.items():
+        for kname, kdf in kdfs.items():
+            n[0] += 1
+            path = d / f'init-{n[0]}.key'
+            if pre is not None:
+                path.write_bytes(pre)
+            be = MemBackend()
+            repo = Repository(be, concurrent=1, cache_directory=None)
+            res = run_async(lambda: repo.init(password=b'owner', settings=settings_of(kdf=copy.deepcopy(kdf)), key_output_path=path))
+            judge(path, res.key, be, b'owner', {'component': 'key-file', 'step': 'init', 'target': target, 'kdf': kname})
+    targets = list(prefills) + ['held the key in use']
+    for how in ('independent', 'shared', 'clone'):
+        for src_kdf, new_kdf in (('scrypt', 'blake2b'), ('blake2b', 'scrypt'), ('scrypt', 'scrypt')):
+            for target in targets:
+                n[0] += 1
+                be = MemBackend()
+                own = d / f'own-{n[0]}.key'
+                repo = Repository(be, concurrent=1, cache_directory=None)
+                run_async(lambda: repo.init(password=b'owner', settings=settings_of(kdf=copy.deepcopy(kdfs[src_kdf])), key_output_path=own))
+                path = own if target == 'held the key in use' else d / f'new-{n[0]}.key'
+                if prefills.get(target) is not None:
+                    path.write_bytes(prefills[target])
+                repo = Repository(be, concurrent=1, cache_directory=None)
+                settings = {'encryption': {'kdf': copy.deepcopy(kdfs[new_kdf])}}
+                new_pw = b'owner' if how == 'clone' else b'newcomer'
+
+                async def go():
+                    if how != 'independent':
+                        await repo.unlock(password=b'owner', key=own.read_bytes())       # the key comes from its file
+                    return await repo.add_key(password=new_pw, settings=settings, shared=how != 'independent', key_output_path=path)
+                case = {'component': 'key-file', 'step': f'add-key ({how})', 'target': target, 'kdf': f'{src_kdf}->{new_kdf}'}
+                try:
+                    out = run_async(go)
+                except BaseException as e:  # noqa
+                    if isinstance(e, (KeyboardInterrupt, SystemExit, MemoryError)):
+                        raise
+                    rep.violations.append({'what': f'add-key ({how}) writing to a file that {target} fails: {exc_name(e)}: {e}'[:200],
+                                           'signature': {'kind': 'key_file', 'step': case['step']}, 'replay': case})
+                    continue
+                judge(path, out.new_key, be, new_pw, case)
+
+
+# --------------------------------------------------------------------------- init again at a location that holds a repository
+def reinit_probe(rep: Report, ctx, n_random):
+    """Sequences of accepted inits with different settings at ONE location of the real local backend: after each of them the
+    stored config must be the generated one, and a fresh process (new backend object, new Repository) must unlock with the
+    key just handed out, back up and restore."""
+    from replicat.backends.local import Local
+    unenc = settings_of(encrypted=False)
+    aes = settings_of(cipher={'name': 'aes_gcm', 'key_bits': 128})
+    chacha = settings_of(cipher={'name': 'chacha20_poly1305'})
+    sha = settings_of(hashing={'name': 'sha2', 'bits': 256}, encrypted=False)
+    seqs = [[unenc, aes], [aes, chacha], [aes, unenc], [unenc, sha, chacha], [aes, aes]]
+    pool = product_cases(ctx.rng, None)
+    for _ in range(n_random):
+        seqs.append([c['settings'] for c in ctx.rng.sample(pool, ctx.rng.choice([2, 3]))])
+    for si, seq in enumerate(seqs):
+        root = ctx.scratch / f'localrepo{si}'
+        for k, settings in enumerate(seq):
+            case = {'component': 'reinit', 'sequence': seq[:k + 1]}
+            rep.case(case, nontrivial=k > 0)
+            rep.count(f'reinit:step{k}')
+            pw = None if settings.get('encryption', {}) is None else b'pw'
+            repo = Repository(Local(str(root)), concurrent=2, cache_directory=None)
+            try:
+                res = run_async(lambda: repo.init(password=pw, settings=copy.deepcopy(settings)))
+                run_async(repo.close)
+            except BaseException as e:  # noqa
+                if isinstance(e, (KeyboardInterrupt, SystemExit, MemoryError)):
+                    raise
+                rep.count('reinit:refused')
+                break               # refusing to initialise over an existing repository is fine; pretending is not
+            fresh = Local(str(root))
+            reader = Repository(fresh, concurrent=1, cache_directory=None)
+            stored = reader.deserialize(fresh.download('config'))
+            sig = {'kind': 'reinit', 'step': k}
+            if stored != res.config:
+                rep.violations.append({'what': f'init number {k + 1} at one location was accepted and handed out a key for {res.config}, but the location holds the config {stored}',
+                                       'signature': sig, 'replay': case})
+                break
+            key = None if res.key is None else reader.serialize(res.key)
+            problem = use_repository(Local(str(root)), key, pw, res.config, ctx.scratch, ctx.rng, f're{si}_{k}')
+            if problem is not None:
+                rep.violations.append({'what': f'init number {k + 1} at one location was accepted, but a fresh process cannot unlock / back up / restore: {problem}',
+                                       'signature': sig, 'replay': case})
+                break
+        shutil.rmtree(root, ignore_errors=True)
+
+
 def all_chains(maxlen):
     """All sequences of add-key operations of length <= maxlen: ('ind',), ('shared', src), ('clone', src)."""
     out = []
@@ -928,6 +1048,8 @@ def run(ctx) -> Report:
     ciphers = [{'key_bits': 256}, {'name': 'chacha20_poly1305'}, {'key_bits': 128, 'nonce_bits': 64}]
     check_chains(rep, ctx, ctx.scale(25, None), ciphers if ctx.tier == 'thorough' else ciphers[:2])
     long_password_probe(rep, ctx)
+    key_file_probe(rep, ctx)
+    reinit_probe(rep, ctx, ctx.scale(4, 40))
     check_utils(rep, ctx, ctx.scale(60, 400))
     rep.notes.append('not exercised: the default user KDF (scrypt n=2**20, 1 GiB) - every encrypted case names cheap KDF parameters')
     return rep
@@ -942,12 +1064,21 @@ def search(ctx, broken) -> Report:
     cases += [random_case(ctx.rng) for _ in range(1500)]
     check_init_cases(cases, rep, ctx, with_model=False)
     check_chains(rep, ctx, None, [{'key_bits': 256}, {'name': 'chacha20_poly1305'}], with_model=False)
+    key_file_probe(rep, ctx)
+    reinit_probe(rep, ctx, 60)
     return rep
 
 
 def replay(ctx, obj):
     rep = Report(rule=RULE)
     case = obj.get('replay') or {}
+    if case.get('component') in ('key-file', 'reinit'):
+        key_file_probe(rep, ctx) if case['component'] == 'key-file' else reinit_probe(rep, ctx, 10)
+        for v in rep.violations:
+            print('VIOLATION-REPRODUCED', v['what'])
+        if not rep.violations:
+            print('not reproduced on the current working tree')
+        return 1 if rep.violations else 0
     if case.get('component') == 'chain':
         matrix, errors, partition, problems, pws, stranger = run_chain(case['cipher'], [tuple(o) for o in case['ops']], case['kdfs'],
                                                                        case.get('same_pw', False), ctx, 'r')
